@@ -335,6 +335,66 @@ def attribute_vs_item_on_container_subclasses(col):
                               % (short(mk()), ', ignore_missing=True' if ignore else '', desc, got if not got.ok else 'returned', _attr_state(t), want), None)
 
 
+def _holders2():
+    d2 = AttrDict2({'x': 'item-x', 'y': 'item-y'})
+    d2.x, d2.only_attr = 'attr-x', 'attr-only'
+    l2 = AttrList2(['e0', 'e1'])
+    l2.x, l2.only_attr = 'attr-x', 'attr-only'
+    import collections
+
+    class Tally(collections.Counter):
+        pass
+    c = Tally(x=1, y=2)
+    c.x = 'attr-x'
+    return {'d': d2, 'l': l2, 'c': c}
+
+
+def _state2(t):
+    return {k: (type(h).__name__, list(h.items()) if isinstance(h, dict) else list(h), sorted(h.__dict__.items())) for k, h in t.items()}
+
+
+_CASES2 = [
+    # (description, path, (holder, key) deleted as an item | None = nothing there: PathDeleteError, unchanged)
+    ('plain segment on a second-level dict subclass', 'd.x', ('d', 'x')),
+    ('plain segment on a second-level dict subclass, attribute of that name absent', 'd.y', ('d', 'y')),
+    ('plain segment naming only an attribute of a second-level dict subclass', 'd.only_attr', None),
+    ('plain segment on a second-level list subclass', 'l.0', ('l', 0)),
+    ('plain index past the end of a second-level list subclass', 'l.7', None),
+    ('plain segment on a Counter subclass', 'c.x', ('c', 'x')),
+]
+
+
+def second_level_cases():
+    out = []
+    for desc, path, edit in _CASES2:
+        t, twin = _holders2(), _holders2()
+        if edit is not None:
+            del twin[edit[0]][edit[1]]
+        got = call(delete, t, path)
+        ok = _state2(t) == _state2(twin) and (got.ok if edit is not None else (not got.ok and isinstance(got.exc, PathDeleteError)))
+        out.append([desc, bool(ok), 'delete(.., %r): %r ; holders now %s, plain Python gives %s'
+                    % (path, got if not got.ok else 'returned', _state2(t), _state2(twin))])
+    return out
+
+
+def _layout_child():
+    import json
+    print('RESULT ' + json.dumps({'cases': second_level_cases(), 'order': c11.registry_order('delete')}))
+
+
+def second_level_container_subclasses(col, n_children):
+    """subclasses of dict / list subclasses (no registered type among the direct bases) and of Counter, carrying attributes: plain
+    segments delete ITEMS.  Asked here and in fresh interpreters with differently laid out heaps (the filing order of the handlers
+    of the 'delete' operation follows a set of type objects, i.e. their addresses)"""
+    for desc, ok, detail in second_level_cases():
+        col.case(('attr-vs-item-2nd-level', desc), True)
+        col.count('deletions_attempted')
+        col.count('attribute_vs_item_cases')
+        if not ok:
+            col.violation('C12/container-subclass-with-attributes:wrong-namespace', '[%s] %s' % (desc, detail), None)
+    c11.attribute_vs_item_in_fresh_processes(col, n_children, module='c12', prop='C12', counter='deletions_attempted', verb='delete')
+
+
 class WithClassDefault:
     """`flag` is visible on every instance (class-level default) but is an instance attribute only after it was set"""
     flag = 'class-default'
@@ -417,6 +477,7 @@ def run(ctx):
     wildcard_deletes(col, rng)
     if ctx.shard == 0:
         attribute_vs_item_on_container_subclasses(col)
+        second_level_container_subclasses(col, 24 if not ctx.thorough else 64)
         attributes_that_are_visible_but_not_deletable(col)
         reused_delete_object(col, rng)
     for i in range(ctx.n(350, 3500)):
